@@ -473,7 +473,8 @@ def random_behaviour(rng: random.Random, length: int):
             if p not in w and any(above(p, q) for q in w) and not any(above(q, p) for q in w):
                 cands.append(("DirToFile", p))
             cov = covered(p)
-            if any(q in w or q in i for q in cov) and all(all(r in cov for r in i if clash(r, q)) for q in cov if q in w):
+            if (p in w or p in i or any(above(p, q) for q in w)) and not any(above(r, p) for r in w) \
+                    and all(all(r in cov for r in i if clash(r, q)) for q in cov if q in w):
                 cands.append(("Stage", p))
             if (p in h or p in i) and not any(above(p, q) for q in list(h) + list(i)) and not any(above(r, p) for r in list(h) + list(i)):
                 cands.append(("Unstage", p))
@@ -587,6 +588,8 @@ def absorb(ctx, results, seen_drift):
             ctx.nontrivial(h)
         for s in r["samples"]:
             ctx.sample(s, limit=6)
+    slow = sorted(results, key=lambda r: -r.get("wall_s", 0))[:4]
+    ctx.log("slowest chunks: " + "; ".join(f"{r['label']} {r.get('wall_s', 0):.0f}s (tlc {r['tlc']['wall_s']:.0f}s, {r['n_beh']} beh, {r['n_events']} ev)" for r in slow))
     for label, a in agg.items():
         ctx.count(a["n_steps"])
         ctx.validated(a["n_beh"])
